@@ -70,9 +70,9 @@ pub use imp::*;
 #[macro_export]
 macro_rules! vcover {
     ($c:expr, $l:literal) => {{
-        #[cfg(kani)]
+        #[cfg(all(kani, not(feature = "nocover")))]
         kani::cover!($c, $l);
-        #[cfg(not(kani))]
+        #[cfg(not(all(kani, not(feature = "nocover"))))]
         { let _ = $c; }
     }};
 }
